@@ -217,6 +217,106 @@ def histCase (line : String) : String :=
         | .ok ps => "[" ++ ",".intercalate (ps.map fun p => "[" ++ cps p.path ++ "," ++ locJ p.loc ++ "]") ++ "]"
     "{\"seq\":[" ++ ",".intercalate (ops.map fun (qi, di) => one qi di) ++ "]}"
 
+-- ---- programmatically built queries: wire AST -> model AST (same format as `segJ`)
+def optIntOf (j : Lean.Json) : Option Int := match j with | .null => none | v => some (intOf v)
+def litOfJ (j : Lean.Json) : Literal :=
+  match j with
+  | .null => .null
+  | _ =>
+    match j.getObjVal? "i" with
+    | .ok v => .int (intOf v)
+    | _ => match j.getObjVal? "fl" with
+    | .ok (.arr a) => .float (intOf a[0]!) (intOf a[1]!).toNat
+    | _ => match j.getObjVal? "s" with
+    | .ok v => .str (cpsOf v)
+    | _ => match j.getObjVal? "b" with
+    | .ok (.bool b) => .bool b
+    | _ => .null
+def arrOf (j : Except String Lean.Json) : List Lean.Json := match j with | .ok (.arr a) => a.toList | _ => []
+def cmpOpOfS (s : String) : CmpOp :=
+  if s == "==" then .eq else if s == "!=" then .ne else if s == ">" then .gt else if s == ">=" then .ge else if s == "<" then .lt else .le
+def sqSegOfJ (j : Lean.Json) : SQSeg :=
+  match j.getObjVal? "I" with
+  | .ok v => .index (intOf v)
+  | _ => .name (cpsOf ((j.getObjVal? "N").toOption.getD .null))
+mutual
+partial def segOfJ (j : Lean.Json) : Segment :=
+  match j.getObjVal? "D" with
+  | .ok d => .descendant (segOfJ d)
+  | _ => match j.getObjVal? "S" with
+  | .ok s => .selector (selOfJ s)
+  | _ => .selectors ((arrOf (j.getObjVal? "SS")).map selOfJ)
+partial def selOfJ (j : Lean.Json) : Selector :=
+  match j with
+  | .str _ => .wildcard
+  | _ => match j.getObjVal? "N" with
+  | .ok n => .name (cpsOf n)
+  | _ => match j.getObjVal? "I" with
+  | .ok i => .index (intOf i)
+  | _ => match j.getObjVal? "L" with
+  | .ok (.arr l) => .slice (optIntOf l[0]!) (optIntOf l[1]!) (optIntOf l[2]!)
+  | _ => .filter (fltOfJ ((j.getObjVal? "F").toOption.getD .null))
+partial def fltOfJ (j : Lean.Json) : Filter :=
+  match j.getObjVal? "or" with
+  | .ok (.arr a) => .or (a.toList.map fltOfJ)
+  | _ => match j.getObjVal? "and" with
+  | .ok (.arr a) => .and (a.toList.map fltOfJ)
+  | _ => .atom (atomOfJ ((j.getObjVal? "atom").toOption.getD .null))
+partial def atomOfJ (j : Lean.Json) : FilterAtom :=
+  let n := (j.getObjValAs? Bool "not").toOption.getD false
+  match j.getObjVal? "f" with
+  | .ok f => .filter (fltOfJ f) n
+  | _ => match j.getObjVal? "t" with
+  | .ok t => .test (testOfJ t) n
+  | _ => match j.getObjVal? "c" with
+  | .ok (.arr c) => .cmp (cmpOpOfS (match c[0]! with | .str s => s | _ => "==")) (cmpbOfJ c[1]!) (cmpbOfJ c[2]!)
+  | _ => default
+partial def cmpbOfJ (j : Lean.Json) : Comparable :=
+  match j.getObjVal? "lit" with
+  | .ok l => .lit (litOfJ l)
+  | _ => match j.getObjVal? "fn" with
+  | .ok f => .fn (fnOfJ f)
+  | _ => match j.getObjVal? "sq" with
+  | .ok (.arr sq) => .sq (match sq[0]! with | .str s => s == "$" | _ => false) ((arrOf (.ok sq[1]!)).map sqSegOfJ)
+  | _ => default
+partial def testOfJ (j : Lean.Json) : Test :=
+  match j.getObjVal? "rel" with
+  | .ok (.arr a) => .rel (a.toList.map segOfJ)
+  | _ => match j.getObjVal? "abs" with
+  | .ok (.arr a) => .abs (a.toList.map segOfJ)
+  | _ => .fn (fnOfJ ((j.getObjVal? "fn").toOption.getD .null))
+partial def argOfJ (j : Lean.Json) : FnArg :=
+  match j.getObjVal? "lit" with
+  | .ok l => .lit (litOfJ l)
+  | _ => match j.getObjVal? "t" with
+  | .ok t => .test (testOfJ t)
+  | _ => .filter (fltOfJ ((j.getObjVal? "f").toOption.getD .null))
+partial def fnOfJ (j : Lean.Json) : TestFunction :=
+  let name := String.ofList (cpsOf ((j.getObjVal? "name").toOption.getD .null))
+  let args := (arrOf (j.getObjVal? "args")).map argOfJ
+  let a (i : Nat) : FnArg := args.getD i (.lit .null)
+  if name == "length" then .length (a 0) else if name == "value" then .value (a 0) else if name == "count" then .count (a 0)
+  else if name == "search" then .search (a 0) (a 1) else if name == "match" then .match (a 0) (a 1)
+  else .custom ((if name.startsWith "custom:" then (name.drop 7).toString else name).toList) args
+end
+
+/-- a programmatically built query: the model evaluator on the AST itself (no parser involved) -/
+def astCase (line : String) : String :=
+  match Lean.Json.parse line with
+  | .error e => "{\"badjson\":\"" ++ e ++ "\"}"
+  | .ok j =>
+    let d := docOf ((j.getObjVal? "tdoc").toOption.getD .null)
+    let segs := (arrOf (j.getObjVal? "ast")).map segOfJ
+    let render (E : Engine) : String := match jsPathProcess E segs d with
+      | .error _ => "{\"err\":1}"
+      | .ok ps => "{\"ok\":[" ++ ",".intercalate (ps.map fun p =>
+          "{\"p\":" ++ cps p.path ++ ",\"l\":" ++ locJ p.loc ++ ",\"v\":" ++ canon p.inner ++ "}") ++ "]}"
+    let i := render (reEngine false)
+    let uns := i != render (reEngine true)
+    let fl := !((Rfc.fSegs segs).litFloats.all f64Exact && (Rfc.fSegs segs).litInts.all i64Exact)
+    "{\"impl\":" ++ i ++ ",\"rfc\":\"unjudged\",\"flags\":{\"regex_unsupported\":" ++ bstr uns ++ ",\"float_overflow\":" ++ bstr fl ++
+      ",\"ok_hyp\":" ++ bstr (okSegsB segs) ++ "}}"
+
 partial def loop (h : IO.FS.Stream) (out : IO.FS.Stream) (mode : String) : IO Unit := do
   let line ← h.getLine
   if line.isEmpty then return ()
@@ -224,6 +324,7 @@ partial def loop (h : IO.FS.Stream) (out : IO.FS.Stream) (mode : String) : IO Un
   else if mode == "regex" then out.putStrLn (regexCase line)
   else if mode == "ref" then out.putStrLn (refCase line)
   else if mode == "hist" then out.putStrLn (histCase line)
+  else if mode == "ast" then out.putStrLn (astCase line)
   else out.putStrLn (parseCase (unesc ((line.dropEndWhile (· == '\n')).toString)))
   loop h out mode
 
